@@ -17,18 +17,28 @@ def optInt (s : Sexp) : Option (Option Int) :=
 def parseSec (lo hi st : Sexp) : Option Sec := do
   some ⟨← optInt lo, ← optInt hi, ← optInt st⟩
 
+def redOf : String → Option Red
+  | "sum" => some .sum | "maxval" => some .maxval | "minval" => some .minval | "product" => some .product
+  | _ => none
+
 partial def parseA : Sexp → Option AExpr
   | .list [.atom "scal", e] => (parseExpr e).map .scal
   | .list [.atom "sec", a, lo, hi, st] => do some (.sec (← a.nat?) (← parseSec lo hi st))
+  | .list [.atom "sec2", a, lo, hi, st, lo2, hi2, st2] => do
+    some (.sec2 (← a.nat?) (← parseSec lo hi st) (← parseSec lo2 hi2 st2))
   | .list [.atom "un", .atom op, e] => do some (.un (← unOpOf op) (← parseA e))
   | .list [.atom "bin", .atom op, a, b] => do some (.bin (← binOpOf op) (← parseA a) (← parseA b))
-  | .list [.atom "sum", a] => a.nat?.map .sum
-  | .list [.atom "sumdim", a] => a.nat?.map .sumDim
+  | .list [.atom "sum", a] => a.nat?.map (.red .sum)
+  | .list [.atom "sumdim", a] => a.nat?.map (.redDim .sum)
+  | .list [.atom "red", .atom k, a] => do some (.red (← redOf k) (← a.nat?))
+  | .list [.atom "reddim", .atom k, a] => do some (.redDim (← redOf k) (← a.nat?))
   | _ => none
 
 def parseWA : Sexp → Option WAssign
   | .list [.atom "wa", a, .list [.atom "sec", lo, hi, st], rhs] => do
-    some ⟨← a.nat?, ← parseSec lo hi st, ← parseA rhs⟩
+    some ⟨← a.nat?, ← parseSec lo hi st, ← parseA rhs, none⟩
+  | .list [.atom "wa2", a, .list [.atom "sec", lo, hi, st], .list [.atom "sec", lo2, hi2, st2], rhs] => do
+    some ⟨← a.nat?, ← parseSec lo hi st, ← parseA rhs, some (← parseSec lo2 hi2 st2)⟩
   | _ => none
 
 partial def parseCl : Sexp → Option WClauses
@@ -68,12 +78,26 @@ partial def parseSrc : Sexp → Option Src
   | .list [.atom "arr", tag, a, .list [.atom "sec", lo, hi, st], rhs] => do
     some (.arrAssign (← tag.nat?) (← a.nat?) (← parseSec lo hi st) (← parseA rhs))
   | .list [.atom "cb", tag] => do some (.codeBlock (.whereC (← tag.nat?) 0 .nil))
+  | .list [.atom "while", c, b] => do
+    let c' ← match c with
+      | .atom "none" => some none
+      | e => (parseExpr e).map some
+    some (.doWhile c' (← parseSrc b))
+  | .list [.atom "named", tag, name, inner] => do some (.namedDo (← tag.nat?) (← name.nat?) (← parseSrc inner))
+  | .list [.atom "namedif", name, inner] => do some (.namedIf (← name.nat?) (← parseSrc inner))
+  | .list [.atom "jump", tag, kind, name] => do
+    let n ← match name with
+      | .atom "none" => some none
+      | e => e.nat?.map some
+    some (.jump (← tag.nat?) (← kind.nat?) n)
   | _ => none
 
 def parseEnv (s : Sexp) : Env :=
   s.items.filterMap fun e =>
     match e with
-    | .list [a, lo, hi, t] => do some (← a.nat?, ⟨← lo.int?, ← hi.int?, (← t.nat?) != 0⟩)
+    | .list [a, lo, hi, t] => do some (← a.nat?, ⟨← lo.int?, ← hi.int?, (← t.nat?) != 0, 0, 0⟩)
+    | .list [a, lo, hi, t, lo2, hi2] => do
+      some (← a.nat?, ⟨← lo.int?, ← hi.int?, (← t.nat?) != 0, ← lo2.int?, ← hi2.int?⟩)
     | _ => none
 
 def showUn : UnOp → String
@@ -95,6 +119,8 @@ def showE : Expr → String
 def tagOf : Src → Nat
   | .whereC t _ _ => t
   | .arrAssign t _ _ _ => t
+  | .namedDo t _ _ => t
+  | .jump t _ _ => t
   | _ => 0
 
 def showS : Src → String
@@ -113,6 +139,11 @@ def showS : Src → String
   | .caseEnd => "(caseend)"
   | .whereC t _ _ => s!"(where {t})"
   | .arrAssign t _ _ _ => s!"(arr {t})"
+  | .doWhile (some c) b => s!"(while {showE c} {showS b})"
+  | .doWhile none b => s!"(while none {showS b})"
+  | .namedDo t _ _ => s!"(named {t})"
+  | .namedIf _ _ => "(namedif)"
+  | .jump t _ _ => s!"(jump {t})"
 
 def b01 (b : Bool) : String := if b then "1" else "0"
 
